@@ -136,6 +136,19 @@ def build(tier="quick", seed=0):
 
             pack.add(Obligation(name, lambda tier, name=name, thv=thv: prove_paths(name, thv, lambda p: (p.value[0] is True, f"read back {p.value[1]}")), replay=lambda w, t=t, v=v: {"call": "c19_value", "args": {"ftype": t, "src": repr(v) if t != "datetime" else f"datetime.datetime.fromisoformat({v.isoformat()!r})"}},
                                 functions=FU, mode="representative value"))
+    # text that is not plain ASCII - valid UTF-8 and text made from undecodable bytes (surrogate escapes): written as it is, or refused; never replaced
+    for t in ("string", "wstring", "uri"):
+        for v in ("caf\udce9.txt", "\u00e9\u20ac \U0001f600", "\udcff", "plain"):
+            name = f"C19.value[{t}, {v!r}]"
+
+            def thv(t=t, v=v):
+                D = it.call(RD, ["c19/t", [(t, "x"), ("varint", "n")]], {})
+                r = it.call(D, [], {"x": v, "n": 7})
+                out, fp = roundtrip([r, r])
+                return len(out) == 2 and all(it.unbase(o.attrs["x"]) == v for o in out), [repr(it.unbase(o.attrs["x"])) for o in out]
+
+            pack.add(Obligation(name, lambda tier, name=name, thv=thv: prove_paths(name, thv, lambda p: (p.value[0] is True, f"read back {p.value[1]}"), lambda m_, p: {}, allow_raise=("UnicodeEncodeError",)), replay=lambda w, t=t, v=v: {"call": "c19_value", "args": {"ftype": t, "src": repr(v), "may_refuse": True}},
+                                functions=FU, mode="representative value"))
     for t in MAPPED:
         name = f"C19.unset[{t}]"
         pack.add(Obligation(name, lambda tier, name=name, t=t: prove_paths(name, one(t, lambda: None), judge_same, lambda m_, p: {}), replay=lambda w, t=t: {"call": "c19_value", "args": {"ftype": t, "src": "None"}}, functions=FU, mode="representative value"))
